@@ -37,7 +37,7 @@ def run_scenario(scn, strat, hooks=None, trace=False, pilot=False, wall_timeout=
     adj = dict(scn.get("adj", {}))
     w = World(app, strategy=strategy, adj_kw=adj, listeners=scn.get("listeners", 1),
               infinite_poll=infinite_poll, record_pilot=pilot, sndbuf=scn.get("sndbuf", 65536), trace=trace,
-              step_limit=scn.get("step_limit", 400000))
+              step_limit=scn.get("step_limit", 400000), own_map=bool(scn.get("own_map")))
     w.net.faults.update({_fkey(k): v for k, v in (scn.get("faults") or {}).items()})
     if scn.get("peer_family"):
         w.net.peer_family = scn["peer_family"]
